@@ -10,7 +10,7 @@ run_one() {
   esac
   git -C /repo worktree add --detach $WT HEAD >/dev/null 2>&1 || { echo "$N: cannot create worktree"; return; }
   if ! git -C $WT apply $P 2>/dev/null; then echo "$N: patch does not apply"; git -C /repo worktree remove --force $WT; return; fi
-  out=$(cd /verif && BSV_CACHE_KEEP=60 BSV_REPO=$WT BSV_EVIDENCE_DIR=$WT/.evidence python3 bsverify.py --property $PROP --tier quick 2>&1); rc=$?
+  out=$(cd /verif && BSV_CACHE_KEEP=300 BSV_REPO=$WT BSV_EVIDENCE_DIR=$WT/.evidence python3 bsverify.py --property $PROP --tier quick 2>&1); rc=$?
   git -C /repo worktree remove --force $WT >/dev/null 2>&1
   rules=$(echo "$out" | grep -oE "violated: R[0-9.]+[a-z]*" | sort -u | cut -d' ' -f2 | tr '\n' ' ')
   if [ $rc -eq 1 ] && { [ -z "$WANT" ] || echo " $rules" | grep -q " $WANT[a-z]* "; }; then echo "$N: DETECTED by $PROP ($rules)"; else echo "$N: MISSED rc=$rc ($rules) $(echo "$out" | grep BROKEN | cut -c1-160)"; fi
